@@ -87,7 +87,7 @@ func Pack(cases []*Case) (*fl.Program, []string) {
 	p := &fl.Program{}
 	main := &fl.Func{Name: "main"}
 	markers := make([]string, len(cases))
-	seenF, seenS := map[*fl.Func]bool{}, map[*fl.TStruct]bool{}
+	seenF, seenS, seenE := map[*fl.Func]bool{}, map[*fl.TStruct]bool{}, map[*fl.TEnum]bool{}
 	for i, k := range cases {
 		q := *k.P
 		q.Funcs = nil
@@ -103,6 +103,14 @@ func Pack(cases []*Case) (*fl.Program, []string) {
 		// declarations shared between cases (same pointer) are emitted once
 		q.Funcs = dedupF(seenF, q.Funcs)
 		q.Structs = dedupS(seenS, q.Structs)
+		var en []*fl.TEnum
+		for _, e := range q.Enums {
+			if !seenE[e] {
+				seenE[e] = true
+				en = append(en, e)
+			}
+		}
+		q.Enums = en
 		p.Merge(&q)
 		markers[i] = fmt.Sprintf("#case %d", i)
 		main.Body = append(main.Body, fl.P(fl.S(markers[i])), &fl.ExprStmt{X: fl.C(fmt.Sprintf("case_%d", i))})
